@@ -120,6 +120,8 @@ def history(rng, timeout, length, placements=True):
 
 def read_statement(ops, res):
     """C14 / C15 read directly on a history's results. -> error text or None"""
+    if ops and ops[0].startswith("overlap-drain"):
+        return None if res == ["ok"] else "two serving calls on one object, the first one draining: " + " ".join(res).replace("_", " ")
     if len(ops) != len(res):
         return "history has %d operations but %d results" % (len(ops), len(res))
     open_, accepted = set(), set()
